@@ -133,7 +133,7 @@ InferenceOK(sh, g, roundtrip) ==
     LET p == ParseSig(g) IN
     /\ p.ok /\ Len(p.Ts) = 1                                   \* a single complete type
     /\ (sh[1] = "wrap" => g = <<sh[2]>>)                        \* wrappers select exactly their type
-    /\ (InClaim(sh) => Fits(sh, p.Ts[1]) /\ roundtrip)          \* encodes and decodes back equal
+    /\ (InClaim(sh) /\ Representable(sh) => Fits(sh, p.Ts[1]) /\ roundtrip)   \* encodes and decodes back equal
 
 Init == \/ /\ mode = "split"
            /\ ts \in UNION {SeqsOfLen(n) : n \in 0..MaxSig}
